@@ -329,6 +329,11 @@ def rule_r3(ctx) -> List[R.Inst]:
         sl = st[0].key
         st = [st[0].stmt]
         sl_txt = unparse(sl)
+        outer_folds = []
+        while isinstance(sl, ast.Call) and isinstance(sl.func, ast.Attribute) and not sl.args and sl.func.attr in (
+                "upper", "lower", "casefold", "swapcase", "title", "capitalize"):
+            outer_folds.append(sl.func.attr)               # k[-2:].upper(): the fold applied to the id after it is cut out
+            sl = sl.func.value
         # id = last two bytes of the key
         ok_slice = isinstance(sl, ast.Subscript) and isinstance(sl.slice, ast.Slice) and sl.slice.upper is None and (
             (isinstance(sl.slice.lower, ast.Constant) and sl.slice.lower.value == 3) or
@@ -337,7 +342,7 @@ def rule_r3(ctx) -> List[R.Inst]:
         # normalisations applied to the stored id must also be applied where objects look it up (they are not: the
         # object pairs of the data lines index the table as they stand)
         base = sl.value if isinstance(sl, ast.Subscript) else None
-        folds = []
+        folds = list(outer_folds)
         seen = 0
         while base is not None and seen < 5:
             seen += 1
@@ -751,13 +756,44 @@ def rule_r6(ctx) -> List[R.Inst]:
             if isinstance(s, ast.Assign) and isinstance(s.targets[0], ast.Name) and s.targets[0].id == it.id and \
                     isinstance(s.value, ast.Call) and call_name(s.value) == "sorted":
                 srt = s.value
+    # the caller may not re-order the lines by their CONTENT: several lines of one measure and channel are overlays whose file order
+    # is the only thing that says which object comes first at equal positions; a sort keyed (also) on the line's data puts a line
+    # holding a marker before the line holding its head
+    rd = M.fn(f"{BMSMAP}.read")
+    extra = []
+    for c in ast.walk(rd.node):
+        if isinstance(c, ast.Call) and call_name(c) == "_read_notes" and c.args and isinstance(c.args[0], ast.Name):
+            nm = c.args[0].id
+            for x in ast.walk(rd.node):
+                srt_c = None
+                if isinstance(x, ast.Call) and call_name(x) == "sort" and isinstance(x.func, ast.Attribute) and unparse(x.func.value) == nm:
+                    srt_c = x
+                if isinstance(x, ast.Assign) and isinstance(x.targets[0], ast.Name) and x.targets[0].id == nm and isinstance(x.value, ast.Call) and \
+                        call_name(x.value) == "sorted":
+                    srt_c = x.value
+                if srt_c is None:
+                    continue
+                key = next((k.value for k in srt_c.keywords if k.arg == "key"), None)
+                fields = {y.slice.value for y in ast.walk(key) if isinstance(y, ast.Subscript) and isinstance(y.slice, ast.Constant)} | \
+                         {y.attr for y in ast.walk(key) if isinstance(y, ast.Attribute)} if key is not None else None
+                if fields is not None and fields and fields <= {"measure", "channel"}:
+                    continue                                            # a stable sort by position of the line: overlays keep their file order
+                if fields and fields - {"measure", "channel"}:
+                    extra.append(R.viol(rid, "ln-pairing-order:caller-sort", M.mods[rd.mod].rel, srt_c.lineno,
+                                        f"the lines are sorted by {sorted(fields)} before they reach the note reader: lines of one measure and "
+                                        f"channel (overlays) are re-ordered by their content, so a line holding an LN marker can come before the "
+                                        f"line holding its head — the marker then closes an older object of the lane (a hold of the wrong, even "
+                                        f"negative, length)", construct=f"BMSMap.read: lines sorted by {sorted(fields - {'measure', 'channel'})}"))
+                else:
+                    extra.append(R.undec(rid, "ln-pairing-order:caller-sort", M.mods[rd.mod].rel, srt_c.lineno,
+                                         "the lines are re-ordered before they reach the note reader by a key that is not read"))
     if srt is None:
-        return [R.viol(rid, "ln-pairing-order", file, loop.lineno,
+        return extra + [R.viol(rid, "ln-pairing-order", file, loop.lineno,
                        "the LN marker is paired with 'the most recent object of the lane' while iterating the lines in the "
                        "caller's order: a marker line placed before its head line, or two lines of one measure and channel, "
                        "pair the wrong objects (or raise)",
                        construct="per-line loop in the caller's order: pop/append pairing of LN markers")]
-    return [R.undec(rid, "ln-pairing-order", file, srt.lineno,
+    return extra + [R.undec(rid, "ln-pairing-order", file, srt.lineno,
                     "lines are sorted before pairing; whether the key orders objects of one lane by position "
                     "(measure and slot, across several lines of one measure) is not decided")]
 
